@@ -296,7 +296,8 @@ def build_world(ctx: Ctx, loop, world_kw=None, connect_order=None):
         elif transport == "local":
             from . import local  # noqa: F401
 
-            world.sim_config[sid] = {"python": "harness.local:LocalGenSim" if sims[sid].get("gen") else "harness.local:LocalSim"}
+            cls = "LocalGenSim" if sims[sid].get("gen") else "LocalSimV2" if sims[sid].get("api") == "2.2" else "LocalSim"
+            world.sim_config[sid] = {"python": "harness.local:" + cls}
         else:
             world.sim_config[sid] = {"vscripted": True}
         if sims[sid].get("api_version"):
